@@ -12,6 +12,9 @@ IFNAME = {"E0": "Ethernet0", "E1": "Ethernet1", "E2": "Ethernet2", "E3": "Ethern
 RIFNAME = {v: k for k, v in IFNAME.items()}
 IFADDR = {"E0": "10.0.0.1", "E1": "10.0.1.1", "E2": "10.0.2.1", "E3": "10.0.3.1"}
 LOGS = {"": "", "log": " log", "log-input": " log-input"}
+# next hops; the longer forms of the command (outgoing interface, administrative distance) are routes of their own
+IOSGW = dict(GW, gBd="10.0.0.2 250", gBi="Ethernet2 10.0.0.2")
+RIOSGW = {v: k for k, v in IOSGW.items()}
 PEER = {"p1": "10.9.9.1", "p2": "10.9.9.2", "p3": "10.9.9.3"}
 RPEER = {v: k for k, v in PEER.items()}
 
@@ -52,7 +55,7 @@ def route_text(r):
     else:
         d = (ADDR[r["dst"]], "255.255.255.255")
     vrf = ("vrf %s " % r["vrf"]) if r["vrf"] else ""
-    return "ip route %s%s %s %s" % (vrf, d[0], d[1], GW[r["gw"]])
+    return "ip route %s%s %s %s" % (vrf, d[0], d[1], IOSGW[r["gw"]])
 
 
 def render(cfg, dev):
@@ -161,7 +164,7 @@ def parse_route(tok):
     if tok[0] == "vrf":
         vrf = tok[1]
         tok = tok[2:]
-    ip, mask, gw = tok
+    ip, mask, gw = tok[0], tok[1], " ".join(tok[2:])
     if (ip, mask) == ("0.0.0.0", "0.0.0.0"):
         d = "any"
     elif (ip, mask) in RMNETS:
@@ -170,7 +173,7 @@ def parse_route(tok):
         d = RADDR[ip]
     else:
         raise Broken("cmdparse: unknown route destination %s %s" % (ip, mask))
-    return {"vrf": vrf, "dst": d, "gw": RGW[gw]}
+    return {"vrf": vrf, "dst": d, "gw": RIOSGW[gw]}
 
 
 def parse_cmd(line):
